@@ -159,6 +159,27 @@ void violating_case(unsigned kind, uint64_t a, Stats& st) {
 	st.cls(std::string("violating:") + what); st.nt(hmix(kind % 6, a % 70000) ^ 0x71);
 }
 
+// custom tileset files that DECLARE another bit depth and are laid out the way a reader honouring that depth would consume them
+// (short colour table, rows of the narrower pitch): a picture that is not 8-bit is refused however consistent the rest of the file is
+void depth_shaped_case(const Pic& p, unsigned depth, unsigned layout, Stats& st) {
+	using refvol::put32; using refvol::puttag;
+	uint32_t h = p.h; size_t entries = depth <= 8 ? (size_t(1) << depth) : 0; uint64_t pitchD = refgfx::pitch(32, depth);
+	uint32_t palLen = layout == 2 ? uint32_t(4 * entries) : 1024;
+	std::vector<uint8_t> v;
+	puttag(v, "PBMP"); put32(v, 0);
+	puttag(v, "head"); put32(v, 0x14); put32(v, 2); put32(v, 32); put32(v, h); put32(v, depth); put32(v, 8);
+	puttag(v, "PPAL"); put32(v, palLen + 24); puttag(v, "head"); put32(v, 4); put32(v, 1);
+	puttag(v, "data"); put32(v, palLen);
+	size_t table = layout == 3 ? 256 : entries;
+	for (size_t i = 0; i < table; ++i) { auto& c = p.pal[i % p.pal.size()]; v.push_back(c[2]); v.push_back(c[1]); v.push_back(c[0]); v.push_back(c[3]); }
+	puttag(v, "data"); put32(v, layout == 0 ? 32 * h : uint32_t(pitchD * h));
+	for (uint64_t i = 0; i < pitchD * h; ++i) v.push_back(p.rows.empty() ? 0 : p.rows[size_t(i % p.rows.size())]);
+	v.resize(v.size() + (layout & 4 ? 0 : 1100), 0);   // slack, so that no reading order runs out of bytes
+	uint32_t total = uint32_t(v.size() - 8); for (int j = 0; j < 4; ++j) v[4 + j] = uint8_t(total >> (8 * j));
+	V_CHECK(guarded([&] { load(v); }) == Out::Err, "custom tileset declaring bit depth " << depth << " (layout " << layout << ", " << h << " rows) was accepted");
+	st.cls("depth_shaped:refused"); st.nt(hmix(depth * 8 + layout, h) ^ 0xD5);
+}
+
 void perturbed_custom(const Pic& p, size_t field, uint32_t value, Stats& st) {
 	std::vector<uint8_t> v = refgfx::encode_tileset(p.h, p.pal, p.rows);
 	uint32_t old = refvol::get32(v, field);
@@ -191,7 +212,8 @@ void run_case(Tape& t, Stats& st) {
 	case 0: { auto pre = t.bytes(t.below(9)); std::vector<uint8_t> sig = t.pick<std::vector<uint8_t>>({{'P', 'B', 'M', 'P'}, {'P', 'B', 'M', 'Q'}, {'p', 'B', 'M', 'P'}, {'B', 'M', 0, 0}, {'P', 'B', 'M'}, {'Q', 'B', 'M', 'P'}, {'P', 'B', 'M', 'P' ^ 0x80}});
 		if (t.below(3) == 0) { sig = t.bytes(4); } if (t.below(4) == 0 && sig.size() == 4) sig[t.below(4)] ^= uint8_t(1u << t.below(8));
 		signature_case(pre, sig, t.bytes(t.below(6)), st); break; }
-	case 1: violating_case(unsigned(t.below(6)), t.u32(), st); break;
+	case 1: if (t.below(3) == 0) { Pic p = gen_pic(t); if (p.h > 96) { p.h = 96; p.rows.resize(96 * 32); } depth_shaped_case(p, t.pick<unsigned>({1, 4, 4, 2, 16, 24, 32, 0}), unsigned(t.below(8)), st); break; }
+		violating_case(unsigned(t.below(6)), t.u32(), st); break;
 	case 2: { Pic p = gen_pic(t); if (p.h > 64) { p.h = 64; p.rows.resize(64 * 32); } auto f = refgfx::tileset_fields(); size_t field = f[t.below(f.size())]; uint32_t val = t.pick<uint32_t>({0, 1, 2, 4, 8, 16, 31, 32, 33, 64, 1024, 1048, 0x14, 0x7FFFFFE0u, 0x80000000u, 0xFFFFFFE0u, 0xFFFFFFFFu, 0x10008u}); if (t.below(3) == 0) val = refvol::get32(refgfx::encode_tileset(p.h, p.pal, p.rows), field) ^ (1u << t.below(32)); perturbed_custom(p, field, val, st); st.nt(hmix(field, val) ^ 0x99); break; }
 	default: { Pic p = gen_pic(t); if (st.want_sample()) st.sample("{\"picture\":{\"height\":" + std::to_string(p.h) + ",\"palette0\":\"" + hex(p.pal.data(), 8) + "\",\"row0\":\"" + hex(p.rows, 16) + "\"}}"); picture_case(p, st); break; }
 	}
@@ -211,6 +233,7 @@ void run_sweep(Stats& st) {
 	{ Tape t(tp); Pic p = gen_pic(t); p.h = 64; p.rows.assign(64 * 32, 0x21);
 	  for (size_t f : refgfx::tileset_fields()) for (uint32_t val : {0u, 1u, 2u, 4u, 8u, 16u, 31u, 32u, 33u, 64u, 96u, 1024u, 1048u, 2048u, 0x14u, 0x7FFFFFE0u, 0x80000000u, 0xFFFFFFE0u, 0xFFFFFFFFu, 0x10008u}) { if (!sw("perturb", f, val)) continue; perturbed_custom(p, f, val, st); } }
 	for (unsigned k : {1u, 2u, 16u, 255u}) for (uint32_t tiles : {0u, 1u, 2u}) for (unsigned bu = 0; bu < 2; ++bu) { if (!sw("partial_palette", k, tiles, bu)) continue; Tape t(tp); Pic p = gen_pic(t); p.h = 32 * tiles; p.rows.assign(size_t(p.h) * 32, 0); for (size_t i = 0; i < p.rows.size(); ++i) p.rows[i] = uint8_t(i * 5 + k); partial_palette_case(p, k, bu, st); }
+	for (unsigned depth : {0u, 1u, 2u, 4u, 16u, 24u, 32u}) for (unsigned layout = 0; layout < 8; ++layout) for (uint32_t tiles : {0u, 1u, 3u}) { if (!sw("depth_shaped", depth, layout, tiles)) continue; Tape t(tp); Pic p = gen_pic(t); p.h = 32 * tiles; p.rows.assign(size_t(p.h) * 32, 0x42); depth_shaped_case(p, depth, layout, st); }
 	for (unsigned kind = 0; kind < 4; ++kind) for (uint64_t a : {uint64_t(0), uint64_t(31), uint64_t(33), uint64_t(0x1FF)}) if (sw("violating", kind, a)) violating_case(kind, a, st);
 	for (uint64_t a = 0; a < 64; ++a) if (sw("violating_pair", a)) violating_case(4, a, st);
 	for (uint64_t a = 0; a < 4096; a += 5) if (sw("violating_triple", a)) violating_case(5, a * 37, st);
